@@ -51,6 +51,21 @@ for _name, _m in list(sys.modules.items()):
         if _v is not None and _v is not vtime._vsleep:
             raise RuntimeError(f"HARNESS-ERROR: {_name}.{_attr} is bound to the real sleep")
 
+# asyncio.TaskGroup keeps its tasks in a set and cancels them in set order, i.e. in the order of
+# their memory addresses: not an owned source of nondeterminism.  Any order is a legal set order;
+# the checks fix it to creation order (stamped by VLoop.create_task).
+import asyncio.taskgroups as _tg  # noqa: E402
+
+
+def _abort_in_creation_order(self) -> None:
+    self._aborting = True
+    for t in sorted(self._tasks, key=lambda t: getattr(t, "_hv_seq", 0)):
+        if not t.done():
+            t.cancel()
+
+
+_tg.TaskGroup._abort = _abort_in_creation_order  # type: ignore[method-assign]
+
 import warnings  # noqa: E402
 
 warnings.simplefilter("ignore")  # "coroutine was never awaited" etc. are observations, not output
